@@ -21,7 +21,7 @@ func init() {
 		},
 		Rule:           "one run = generated schema pair (A, B = A after 1-4 edits; 2-4 tables with indexes, checks, foreign keys) + a directory of 2-6 files; operations: diff+plan+DefaultFormatter for sqlite/mysql/postgres, MarshalHCL + EvalHCLBytes + MarshalHCL for the three dialects, MemDir checksum; schedules: 2-4 map-iteration orders at every seamed map-range site (the same bytes are required), one permutation of the declaration order of tables / indexes / foreign keys / checks (the multiset of statements must not change), a tape-scheduled interleaving of all operations cut at call boundaries, a repeat in the same process, and (second part) three fresh processes each under its own map order; distinct = distinct trace hash",
 		RequiredFaults: []string{"map-order-permuted", "declaration-order-permuted", "operations-interleaved", "fresh-process"},
-		RequiredProbes: []string{"site:sql/migrate/dir.go:495", "site:sql/internal/sqlx/plan.go:373"},
+		RequiredProbes: []string{"site:sql/migrate/dir.go:MemDir.Files#1", "site:sql/internal/sqlx/plan.go:byKeys#1"},
 		Real:           []string{"planners, differs, HCL marshalling/evaluation of all three dialects, DefaultFormatter, MemDir/HashFile - built from a scratch copy in which /verif/maprw rewrote the map-range sites to a seeded order"},
 		Stub:           []string{"verifmap.Keys (generated into the scratch copy): sorted keys permuted by the simulator's seed"},
 		Assumptions: []string{
